@@ -25,6 +25,7 @@ CONSTANTS
   MaxRestarts = %d
   MaxFlight = 3
   MaxTimers = %d
+  Chunk = %d
 VIEW View
 INVARIANTS C05_Safety C05_Completion
 CHECK_DEADLOCK FALSE
@@ -75,7 +76,7 @@ def run(ctx):
     ctx.build()
     # ---- M + G (cut-only graph)
     r = ctx.tlc('Pair.tla', 'p.cfg', workers=16, timeout=3000, extra=['-dump', 'dot,actionlabels', 'g.dot'],
-                files={'p.cfg': CFG % ((2, 1, 0, 0) if quick else (3, 2, 0, 0))})
+                files={'p.cfg': CFG % ((2, 1, 0, 0, 0) if quick else (3, 2, 0, 0, 0))})
     ctx.tlc_ok(r, 'Pair M (cuts)')
     g = graph.Graph(os.path.join(r['dir'], 'g.dot'))
     paths = g.edge_cover(maxlen=40, rng=rng)
@@ -84,20 +85,26 @@ def run(ctx):
     states, trans = r['distinct'], r['generated']
     # M with restarts and timers (no dump)
     # measured: (3,1,1,1) 1.1 M distinct states in 71 s; (3,2,1,1) 8.4 M in 12 min; (2,2,1,2) more than 11 M, not finished in 15 min
-    r2 = ctx.tlc('Pair.tla', 'p2.cfg', workers=16, timeout=5400, files={'p2.cfg': CFG % ((2, 1, 1, 1) if quick else (3, 2, 1, 1))})
+    r2 = ctx.tlc('Pair.tla', 'p2.cfg', workers=16, timeout=5400, files={'p2.cfg': CFG % ((2, 1, 1, 1, 0) if quick else (3, 2, 1, 1, 0))})
     ctx.tlc_ok(r2, 'Pair M (restarts, timers)')
     states += r2['distinct']
     trans += r2['generated']
+    # M with a ResendRequestChunkSize on both sides (recovery in chunks)
+    r3 = ctx.tlc('Pair.tla', 'p3.cfg', workers=16, timeout=5400, files={'p3.cfg': CFG % ((3, 1, 0, 0, 2) if quick else (4, 2, 0, 0, 2))})
+    ctx.tlc_ok(r3, 'Pair M (chunked recovery)')
+    states += r3['distinct']
+    trans += r3['generated']
     mem_scripts = [{'id': 'g%d' % i, 'steps': [label_to_ev(g.edge_call(e)) for e in p] + [{'k': 'Stabilize', 'rounds': 4}]} for i, p in enumerate(paths)]
     mem_scripts += [{'id': 'w%d' % i, 'steps': random_schedule(rng, False) + [{'k': 'Stabilize', 'rounds': 4}]} for i in range(200 if quick else 3000)]
     file_scripts = [{'id': 'f%d' % i, 'steps': random_schedule(rng, True) + [{'k': 'Stabilize', 'rounds': 4}]} for i in range(60 if quick else 800)]
     rows_all = []
     nviol = 0
-    for store, scripts in (('memory', mem_scripts), ('file', file_scripts)):
-        sp = os.path.join(ctx.scratch, 'scripts_%s.ndjson' % store)
+    chunk_scripts = [dict(s_, id='c' + s_['id']) for s_ in mem_scripts if s_['id'].startswith('w')][:150 if quick else 2000]
+    for store, scripts, chunk in (('memory', mem_scripts, 0), ('file', file_scripts, 0), ('memory', chunk_scripts, 2)):
+        sp = os.path.join(ctx.scratch, 'scripts_%s%d.ndjson' % (store, chunk))
         common.ndjson_write(sp, scripts)
-        tp = os.path.join(ctx.scratch, 'trace_%s.ndjson' % store)
-        p = ctx.run_vh(['pair', '-scripts', sp, '-out', tp, '-store', store, '-repo', common.REPO], timeout=6000)
+        tp = os.path.join(ctx.scratch, 'trace_%s%d.ndjson' % (store, chunk))
+        p = ctx.run_vh(['pair', '-scripts', sp, '-out', tp, '-store', store, '-repo', common.REPO, '-chunk', str(chunk)], timeout=6000)
         if p.returncode != 0:
             raise common.Infra('vh pair failed: ' + p.stderr[-1500:])
         rows = common.ndjson_read(tp)
@@ -108,14 +115,14 @@ def run(ctx):
         chunks = split(rows, 8)
         viol, div = [], []
         with ThreadPoolExecutor(max_workers=8) as ex:
-            for v, d in ex.map(lambda ch: validate(ctx, ch), chunks):
+            for v, d in ex.map(lambda ch: validate(ctx, ch, chunk), chunks):
                 viol += v
                 div += d
         byid = {s['id']: s for s in scripts}
         for ch, m in viol:
             row = ch[int(m[1]) - 1]
             for c in sorted(m[2]):
-                ctx.report({'family': 'pair', 'clause': c, 'store': store, 'restart': any(s['k'] == 'Restart' for s in byid[row['tr']]['steps'])},
+                ctx.report({'family': 'pair', 'clause': c, 'store': store, 'chunk': chunk, 'restart': any(s['k'] == 'Restart' for s in byid[row['tr']]['steps'])},
                            'C05 clause %s (%s store) at step %s %s: gotA=%s subB=%s gotB=%s subA=%s a=%s b=%s' % (
                                c, store, row['i'], row['ev'], row['gotA'], row['subB'], row['gotB'], row['subA'], row['a'], row['b']),
                            {'store': store, 'steps': byid[row['tr']]['steps']})
@@ -215,9 +222,9 @@ def split(rows, n):
     return out
 
 
-def validate(ctx, rows):
+def validate(ctx, rows, chunk=0):
     content = '\n'.join(json.dumps(r, separators=(',', ':')) for r in rows) + '\n'
-    cfg = 'SPECIFICATION TraceSpec\nCONSTANTS\n MaxSends = 0\n MaxCuts = 0\n MaxRestarts = 0\n MaxFlight = 0\n MaxTimers = 0\nPOSTCONDITION AllConsumed\nCHECK_DEADLOCK FALSE\n'
+    cfg = 'SPECIFICATION TraceSpec\nCONSTANTS\n MaxSends = 0\n MaxCuts = 0\n MaxRestarts = 0\n MaxFlight = 0\n MaxTimers = 0\n Chunk = %d\nPOSTCONDITION AllConsumed\nCHECK_DEADLOCK FALSE\n' % chunk
     r = ctx.tlc('PairTrace.tla', 'tr.cfg', workers=1, timeout=3000, javaopts='-Xss512m', files={'trace.ndjson': content, 'tr.cfg': cfg})
     if r['rc'] != 0 or 'Model checking completed. No error has been found.' not in r['out']:
         raise common.Infra('PairTrace did not run to completion:\n' + r['out'][-2500:])
